@@ -500,6 +500,15 @@ def corr_names(chk, csl, spy):
             lay = rng.choice('ABDRE')
             cases.append(((mask, bass, lay), layout(lay, pcs, bass, rng)))
     cases.append(((0, 0, 'empty'), []))
+    # the ends of the MIDI range, in both tiers: every one- and two-class set voiced in octave 0 (pitches 0..11, among them
+    # the list [0], whose only member is falsy - seed C15-17 tested emptiness with any()), doubled, and at the top (..127)
+    for mask, pcs, bass in all_cases():
+        if len(pcs) <= 2:
+            low = [bass] + [p + (12 if p < bass else 0) for p in pcs if p != bass]
+            cases.append(((mask, bass, 'low'), low))
+            cases.append(((mask, bass, 'low-doubled'), low + [low[0]]))
+            top = bass + 12 * ((127 - bass) // 12)
+            cases.append(((mask, bass, 'high'), [top] if len(pcs) == 1 else layout('E', pcs, bass, rng)))
     reqs, impl, figs, unsorted, results = [], [], [], [], []
     for key, pitches in cases:
         req, rels = name_request(pitches)
